@@ -9,6 +9,7 @@ import (
 
 	"github.com/ethereum/go-ethereum/common/hexutil"
 	"github.com/ethereum/go-ethereum/crypto"
+	"github.com/ethereum/go-ethereum/light"
 	"github.com/ethereum/go-ethereum/rlp"
 	"github.com/polynetwork/poly/common"
 	"github.com/polynetwork/poly/merkle"
@@ -41,12 +42,14 @@ const (
 	mutAccountFieldAltered
 	mutJunkNodeAppended
 	mutHeightShift
+	mutForeignStorageReal       // genuine CCMC account proof, storageHash + storage proof of ANOTHER contract's real storage trie
+	mutForeignStorageFabricated // genuine CCMC account proof, storageHash + storage proof of a trie made up by the relayer
 	numMuts
 )
 
 var mutNames = [...]string{"none", "reorder-account-nodes", "reorder-storage-nodes", "duplicate-nodes", "drop-account-node", "drop-storage-node", "keep-prefix-only",
 	"foreign-account-proof", "other-contract", "other-slot", "key-proof-mismatch", "altered-message", "other-message", "empty-account-proof", "storage-proof-count",
-	"storage-hash-swapped", "account-field-altered", "junk-node-appended", "height-shift"}
+	"storage-hash-swapped", "account-field-altered", "junk-node-appended", "height-shift", "foreign-storage-root-real", "foreign-storage-root-fabricated"}
 
 func mutPreserves(m int) bool {
 	return m == mutNone || m == mutReorderAccount || m == mutReorderStorage || m == mutDuplicateNodes || m == mutJunkNodeAppended
@@ -104,6 +107,7 @@ type c23 struct {
 	w        *world
 	accepted map[string]bool // cross-chain ids already accepted (reference done-set)
 	nAccept  int
+	nForged  int
 	sig      []byte
 }
 
@@ -249,8 +253,11 @@ func (x *c23) buildImport(st kernel.Step) *pend {
 	case mutStorageHashSwapped:
 		pr.StorageHash = node.State.storRoot[1-dep.Acct].Hex()
 	case mutAccountFieldAltered:
-		if ma%2 == 0 {
+		if ma%3 == 0 {
 			pr.Nonce = hexutil.EncodeUint64(w.c.Accts[dep.Acct].Nonce + 1)
+		} else if ma%3 == 2 {
+			h := crypto.Keccak256Hash([]byte(pr.CodeHash))
+			pr.CodeHash = h.Hex()
 		} else {
 			b, _ := new(big.Int).SetString(strings.TrimPrefix(pr.Balance, "0x"), 16)
 			pr.Balance = hexutil.EncodeBig(b.Add(b, big.NewInt(1)))
@@ -260,6 +267,49 @@ func (x *c23) buildImport(st kernel.Step) *pend {
 		pr.AccountProof = append(pr.AccountProof, hexutil.Encode(junk))
 		if len(pr.StorageProofs) == 1 {
 			pr.StorageProofs[0].Proof = append([]string{hexutil.Encode(junk)}, pr.StorageProofs[0].Proof...)
+		}
+	case mutForeignStorageReal, mutForeignStorageFabricated:
+		// The account proof and the claimed nonce/balance/codeHash are the registered CCMC's, proven
+		// under the header's state root; storageHash and the storage proof belong to another trie
+		// that does hold keccak256(message) at the slot. Only the comparison of the claimed storage
+		// root with the proven account ties the storage proof to the block.
+		var fd *Deposit
+		if mut == mutForeignStorageReal {
+			var cand []*Deposit
+			for _, di := range node.State.deps {
+				if d := w.c.Deps[di]; d.Acct == 1 && d.Short == nil {
+					cand = append(cand, d)
+				}
+			}
+			if len(cand) > 0 {
+				fd = cand[mod(ma, int64(len(cand)))]
+			}
+		}
+		pr = node.State.Prove(0, dep.Slot)
+		sp = &pr.StorageProofs[0]
+		if fd != nil {
+			o := node.State.Prove(1, fd.Slot)
+			pr.StorageHash = o.StorageHash
+			pr.StorageProofs = o.StorageProofs
+			msg = append([]byte(nil), fd.Msg...)
+			dep = fd
+		} else {
+			mut = mutForeignStorageFabricated
+			x.nForged++
+			msg = depositMsgID(w.run.Plan.Seed, 1000+x.nForged, 1000+x.nForged, dstChainID, ma) // a message nobody deposited, with a fresh id
+			t := newTrie()
+			fake := &Deposit{Msg: msg}
+			t.Update(crypto.Keccak256(dep.Slot[:]), storageValue(fake))
+			for i := int64(0); i < 1+mod(ma, 4); i++ {
+				s := slotOf(int(500 + i))
+				t.Update(crypto.Keccak256(s[:]), storageValue(&Deposit{Msg: []byte{byte(i), byte(ma)}}))
+			}
+			var nl light.NodeList
+			if err := t.Prove(crypto.Keccak256(dep.Slot[:]), 0, &nl); err != nil {
+				panic(err)
+			}
+			pr.StorageHash = t.Hash().Hex()
+			sp.Key, sp.Proof = dep.Slot.Hex(), hexList(nl)
 		}
 	case mutHeightShift:
 		if ma%2 == 0 || height == 0 {
@@ -435,6 +485,11 @@ func (x *c23) onImport(tr *e1.TxTrace, pre, post sview, p *pend) {
 			run.Probe("ground_message_against_short_value_rejected")
 		}
 	}
+	if !tr.OK && (ic.mut == mutForeignStorageReal || ic.mut == mutForeignStorageFabricated) && why == "account-proof-does-not-verify" {
+		// everything else held (confirmed canonical block, registered contract): only the storage root tie refused it
+		run.Probe("foreign_storage_root_rejected")
+		run.Probe("rejected_with:" + mutNames[ic.mut])
+	}
 	if !tr.OK {
 		run.Probe("rejected:" + why)
 		if why == "not-enough-confirmations" && ic.conf == int64(w.bw)-1 && ic.wantOK == 1 && ic.canon {
@@ -514,7 +569,7 @@ func genC23(rng *kernel.RNG, idx int, tier string) *kernel.Plan {
 			e = rng.Intn(minInt(len(g.ext), 4))
 		}
 		acct := 0
-		if rng.Chance(0.15) {
+		if rng.Chance(0.22) {
 			acct = 1
 		}
 		kind := rng.Intn(8)
@@ -621,8 +676,8 @@ func init() {
 		ID: "C23", Level: "exploration", Engine: "E1 cluster + lceth (simulated Ethereum PoW chain with EVM state tries)",
 		Rule: "case = one import (ImportExTransfer through the ETH router) of a deposit of the simulated EVM state: block tree as in C27 (reorg shapes), 3-10 deposits (slot -> keccak256(message)) written into the " +
 			"CCMC's or another contract's storage at chosen blocks (some CCMC slots hold short NON-hash values 0x01..0xff, 2 bytes, 0x00, 0x0100, 0x80, 0x7f and are claimed with a message ground so that its hash ends in the value; some genuine messages are ground to a hash with a leading zero byte), BlocksToWait 1-5; the relayer follows the tree (forks, reorgs, restarts) and submits eth_getProof answers built with go-ethereum's trie.Prove: " +
-			"at confirmations BlocksToWait-2/-1/0/+1 relative to the tracked head, for stored non-canonical blocks, for blocks removed by a reorg, for blocks the light client has not seen, with 18 proof " +
-			"mutations (re-ordered/duplicated/dropped/truncated node lists, foreign account proof, other contract, other slot, key/proof mismatch, altered/other message, swapped storage hash, altered account " +
+			"at confirmations BlocksToWait-2/-1/0/+1 relative to the tracked head, for stored non-canonical blocks, for blocks removed by a reorg, for blocks the light client has not seen, with 20 proof " +
+			"mutations (re-ordered/duplicated/dropped/truncated node lists, foreign account proof, foreign storage root (another contract's real storage trie / a fabricated trie, under the CCMC's genuine account proof), other contract, other slot, key/proof mismatch, altered/other message, swapped storage hash, altered account " +
 			"field, junk node, shifted height, wrong proof counts) and 3 hex formats; every import is judged in BOTH directions against a reference (own MPT verifier over the node set, confirmations from the " +
 			"tracked head, registered CCMC and BlocksToWait from the registry). evaluations = imports; non-trivial run = at least one accepted and one other import; distinct by the (mode, mutation, outcome) sequence",
 		Real: []string{"native/service/cross_chain_manager entrance (ImportExTransfer, MakeTransaction) and eth handler (verifyFromEthTx, VerifyMerkleProof, CheckProofResult)", "native/service/header_sync/eth light client", "side_chain_manager registry", "go-ethereum trie/rlp/crypto (trusted dependency)", "E1 harness (per-transaction tracing, re-execution, replicas)"},
@@ -632,7 +687,8 @@ func init() {
 		QuickRuns: 128, ThoroughRuns: 9000, QuickCap: 60, ThoroughCap: 840,
 		RequiredProbes: []string{"honest_headers_mostly_accepted", "confirmation_boundary_exact", "rejected_one_confirmation_short", "proof_for_noncanonical_block", "rejected_after_reorg_removed_block", "deposit_accepted",
 			"accepted_with:reorder-account-nodes", "accepted_with:duplicate-nodes", "rejected:not-the-registered-contract", "rejected:value-is-not-hash-of-message", "rejected:account-proof-does-not-verify", "rejected:storage-proof-does-not-verify",
-			"ground_message_against_short_value_rejected", "accepted_message_hash_with_leading_zero_byte"},
+			"ground_message_against_short_value_rejected", "accepted_message_hash_with_leading_zero_byte", "foreign_storage_root_rejected",
+			"rejected_with:foreign-storage-root-real", "rejected_with:foreign-storage-root-fabricated"},
 		Generate: genC23,
 		Execute:  execC23,
 	})
